@@ -54,6 +54,10 @@ def main():
             for fn in os.listdir(d):
                 if not fn.startswith('fixed-'):
                     os.unlink(os.path.join(d, fn))
+    rp = os.path.join(ROOT, 'selftest', 'results.json')
+    allres = json.load(open(rp)) if os.path.exists(rp) else {}
+    allres.setdefault(prop, {}).update({n: r[:200] for n, r in results})
+    json.dump(allres, open(rp, 'w'), indent=1, sort_keys=True)
     caught = sum(1 for r in results if r[1].startswith('rc=1'))
     print('%s: %d/%d mutants caught' % (prop, caught, len(results)))
 
